@@ -6,6 +6,7 @@ import re
 import sys
 import uuid
 from datetime import date, time
+from decimal import Decimal
 from enum import Enum
 from typing import TYPE_CHECKING, Any, Callable, Iterable, Iterator, Sequence, Type, TypeVar, cast
 
@@ -355,6 +356,20 @@ class Parameterizer:
             return Parameter(idx=len(self.values))
 
 
+def _is_negative_constant(term: Any) -> bool:
+    """
+    A wrapped negative number: it needs parentheses after a minus sign whether it is written inline or as a
+    placeholder, so that the inline and the parameterised text differ only by literal versus placeholder.
+    """
+    value = getattr(term, "value", None)
+    return (
+        isinstance(term, ValueWrapper)
+        and isinstance(value, (int, float, Decimal))
+        and not isinstance(value, bool)
+        and value < 0
+    )
+
+
 class Negative(Term):
     def __init__(self, term: Term) -> None:
         super().__init__()
@@ -377,7 +392,11 @@ class Negative(Term):
     def get_sql(self, ctx: SqlContext) -> str:
         term_sql = self.term.get_sql(ctx.copy(with_alias=False))
         # -(a+1) must not become -a+1, and a second minus must not form the "--" comment opener
-        if isinstance(self.term, ArithmeticExpression) or term_sql.startswith("-"):
+        if (
+            isinstance(self.term, ArithmeticExpression)
+            or _is_negative_constant(self.term)
+            or term_sql.startswith("-")
+        ):
             term_sql = "({})".format(term_sql)
         sql = "-{term}".format(term=term_sql)
         if ctx.with_alias:
@@ -1255,7 +1274,9 @@ class ArithmeticExpression(Term):
         left_sql = self.left.get_sql(operand_ctx)
         right_sql = self.right.get_sql(operand_ctx)
         right_parens = self.right_needs_parens(self.operator, right_op)
-        if self.operator == Arithmetic.sub and right_sql.startswith("-"):
+        if self.operator == Arithmetic.sub and (
+            _is_negative_constant(self.right) or right_sql.startswith("-")
+        ):
             # a - -1 would otherwise be written a--1, which opens a comment
             right_parens = True
 
